@@ -126,6 +126,17 @@ def gen_stream_lines(rng, tier):
                     ["=", ".", "="], [hexs(m), "=", "00", "="], [".", "=", "."]):
             out.append("md_stream %s %s" % (alg, " ".join(pat)))
         out.append("md_stream %s" % alg)                       # no Input call at all
+        # the counter test of SHA*_AddLength (counter preset just below the values where the test of the compiled code fires:
+        # 2^64 for sha224-256.c; k*2^96 and 2^128 for the 32-bit-word variant of sha384-512.c; 2^64 must NOT fire there)
+        if bs == 64:
+            presets = [(1 << 64) - 8, (1 << 64) - 16, (1 << 64) - 24, (1 << 32) - 8, (1 << 63), 0x1234567800]
+        else:
+            presets = [(1 << 128) - 8, (1 << 128) - 16, (1 << 96) - 8, (1 << 96) - 16, 3 * (1 << 96) - 8, 7 * (1 << 96) - 8, 8 * (1 << 96) - 8,
+                       9 * (1 << 96) - 8, (1 << 64) - 8, (1 << 32) - 8, (1 << 96) + (1 << 32) - 8, (1 << 127), 0x1234567800]
+        for pv in presets:
+            for lens_ in ([1], [2], [1, 1, 1], [3], [bs + 3]):
+                msg = rng.bytes(sum(lens_))
+                out.append("md_stream_len %s %x %s" % (alg, pv, " ".join(_toks(msg, lens_))))
     # BLAKE2s
     for ol in ([1, 20, 32] if q else [1, 2, 16, 20, 28, 31, 32]):
         for kl in ([0, 1, 32] if q else [0, 1, 16, 31, 32]):
